@@ -44,7 +44,8 @@ theorem insertObj_rows (fuel a pos b : Nat) (s : St) (r : Nat) (s' : St)
           obtain ⟨rfl, rfl⟩ := h
           let new : Obj := { oa with rows := insertAt oa.rows pos (convRows s.conv oa.tag ob), other := oth, refPos := rp }
           refine ⟨oa, ob, new, hoa, hob, ?_, rfl, rfl, rfl⟩
-          split <;> (simp only [St.set]; exact alloc_get s2 new)
+          simp only [St.set]
+          exact alloc_get s2 new
   · simp at h
 
 /-- appended rows of a rectangular field: `insertAt rows rows.length b = rows ++ b` (`extend appends`) and
@@ -77,6 +78,131 @@ theorem extend_float_rows (us : Units) (nm : String) (o no : Nat) (u : Option (L
             · obtain ⟨oa', orr, h1, h2, h3, _, _, _⟩ := insertPlain_rows o no _ s o' s1 hr1
               rw [hoa] at h1; cases h1
               exact ⟨oa, ob, fs, o', _, orr, hoa, hob, hfs, rfl, h2, h3⟩
+  · simp at h
+
+/-! ### the memo contract of `insert`, and the content of an extended time field -/
+
+/-- a memo hit on `a`: `insert` hands out the array made earlier and changes nothing -/
+theorem insertObj_hit_a (fuel a pos b : Nat) (s : St) (r : Nat) (h : s.find a = some r) :
+    insertObj (fuel + 1) a pos b s = .ok (r, s) := by
+  simp [insertObj, h]
+
+/-- a memo hit on `b` (and none on `a`) -/
+theorem insertObj_hit_b (fuel a pos b : Nat) (s : St) (r : Nat) (ha : s.find a = none) (h : s.find b = some r) :
+    insertObj (fuel + 1) a pos b s = .ok (r, s) := by
+  simp [insertObj, ha, h]
+
+/-- no hit: the new array is registered under the id of `a` and under the id `b` had when it was handed in -/
+theorem insertObj_registers (fuel a pos b : Nat) (s : St) (r : Nat) (s' : St)
+    (h : insertObj (fuel + 1) a pos b s = .ok (r, s')) (ha : s.find a = none) (hb : s.find b = none) :
+    s'.find a = some r ∧ s'.find b = some r := by
+  simp only [insertObj, ha, hb] at h
+  split at h
+  · split at h
+    · simp at h
+    · split at h
+      · simp at h
+      · split at h
+        · simp at h
+        · simp only [Except.ok.injEq, Prod.mk.injEq] at h
+          obtain ⟨rfl, rfl⟩ := h
+          constructor
+          · simp only [St.find, St.set, List.lookup]
+            by_cases hab : a = b
+            · simp [hab]
+            · have : (a == b) = false := by simpa using hab
+              simp [this]
+          · simp [St.find, St.set]
+  · simp at h
+
+/-- **extending a time / time-delta field, content**: when the memo has seen neither array, the array of the extended
+field is the array of self with the epochs of other — each converted to the scale and shown in the format of self when
+those differ (`convRows`) — spliced in at the field's `num_obs`; it keeps scale and format of self -/
+theorem extendLeaf_time_rows (us : Units) (nm : String) (k : Kind) (hk : k = .time ∨ k = .timeDelta)
+    (o no : Nat) (u : Option (List String)) (l : Nat)
+    (nm2 : String) (o2 no2 : Nat) (u2 : Option (List String)) (l2 : Nat) (s : St) (f' : Field) (s' : St)
+    (h : extendLeaf us nm k o no u l (.leaf nm2 k o2 no2 u2 l2) s = .ok (f', s'))
+    (ha : s.find o = none) (hb : s.find o2 = none) :
+    ∃ oa ob o' no' orr, s.heap[o]? = some oa ∧ s.heap[o2]? = some ob ∧
+      f' = .leaf nm k o' no' u l ∧ s'.heap[o']? = some orr ∧
+      orr.rows = insertAt oa.rows no (convRows s.conv oa.tag ob) ∧ orr.tag = oa.tag ∧ no' = orr.rows.length := by
+  simp only [extendLeaf, bne_self_eq_false, Bool.false_eq_true, if_false] at h
+  split at h
+  · rename_i oa ob hoa hob
+    split at h
+    · simp at h
+    · split at h
+      · simp at h
+      · rename_i o' s1 hr1
+        simp only [Except.ok.injEq, Prod.mk.injEq] at h
+        obtain ⟨rfl, rfl⟩ := h
+        have hr2 : insertObj (s.heap.length + 1) o no o2 s = .ok (o', s1) := by
+          rcases hk with rfl | rfl <;>
+          · simp only [Kind.isDelta, Kind.isPlain, Bool.false_eq_true, if_false] at hr1
+            split at hr1
+            · simp at hr1
+            · simpa using hr1
+        obtain ⟨oa', ob', orr, q1, q2, q3, q4, _, q6⟩ := insertObj_rows _ o no o2 s o' s1 hr2 ha hb
+        rw [hoa] at q1; cases q1
+        rw [hob] at q2; cases q2
+        exact ⟨oa, ob, o', _, orr, hoa, hob, rfl, q3, q4, q6, by simp [objLen, q3]⟩
+  · simp at h
+
+theorem find_none_of_bound (s : St) (hbnd : ∀ k v, (k, v) ∈ s.memo → k < s.heap.length) :
+    s.find s.heap.length = none := by
+  simp only [St.find]
+  rw [List.lookup_eq_none_iff]
+  intro p hp
+  have := hbnd p.1 p.2 hp
+  have hne : s.heap.length ≠ p.1 := by omega
+  simpa using hne
+
+/-- **extending a sigma field, content**: values and sigmas of other, column by column times the unit factor, appended
+at the field's `num_obs` (the memo knows the array of self not, and only arrays that exist) -/
+theorem extendLeaf_sigma_rows (us : Units) (nm : String) (o no : Nat) (u : Option (List String)) (l : Nat)
+    (nm2 : String) (o2 no2 : Nat) (u2 : Option (List String)) (l2 : Nat) (s : St) (f' : Field) (s' : St)
+    (h : extendLeaf us nm .sigma o no u l (.leaf nm2 .sigma o2 no2 u2 l2) s = .ok (f', s'))
+    (ha : s.find o = none) (hbnd : ∀ k v, (k, v) ∈ s.memo → k < s.heap.length) :
+    ∃ oa ob fs o' no' orr, s.heap[o]? = some oa ∧ s.heap[o2]? = some ob ∧ unitFactors us u u2 = .ok fs ∧
+      f' = .leaf nm .sigma o' no' u l ∧ s'.heap[o']? = some orr ∧
+      (ob.tag = oa.tag ∨ ob.tag = "" → orr.rows = insertAt oa.rows no (ob.rows.map (scaleRow fs))) := by
+  simp only [extendLeaf, bne_self_eq_false, Bool.false_eq_true, if_false] at h
+  split at h
+  · rename_i oa ob hoa hob
+    split at h
+    · simp at h
+    · split at h
+      · simp at h
+      · rename_i o' s1 hr1
+        simp only [Except.ok.injEq, Prod.mk.injEq] at h
+        obtain ⟨rfl, rfl⟩ := h
+        simp only [Kind.isDelta, Bool.false_eq_true, if_false] at hr1
+        split at hr1
+        · simp at hr1
+        · have hsf : (Kind.sigma == Kind.float) = false := by decide
+          simp only [hsf, Bool.false_eq_true, if_false, beq_self_eq_true, if_true] at hr1
+          split at hr1
+          · simp at hr1
+          · rename_i fs hfs
+            have hlt : o < s.heap.length := by
+              have := List.getElem?_eq_some_iff.mp hoa
+              exact this.1
+            obtain ⟨oa', ot, orr, q1, q2, q3, q4, _, _⟩ := insertObj_rows _ o no s.heap.length
+              (s.alloc { ob with rows := ob.rows.map (scaleRow fs) }).2 o' s1 hr1
+              (by simpa [St.alloc, St.find] using ha)
+              (by simpa [St.alloc, St.find] using find_none_of_bound s hbnd)
+            have e1 : (s.alloc { ob with rows := ob.rows.map (scaleRow fs) }).2.heap[o]? = some oa := by
+              simp [St.alloc, List.getElem?_append_left hlt, hoa]
+            have e2 : (s.alloc { ob with rows := ob.rows.map (scaleRow fs) }).2.heap[s.heap.length]? =
+                some { ob with rows := ob.rows.map (scaleRow fs) } := by simp [St.alloc]
+            rw [e1] at q1; cases q1
+            rw [e2] at q2; cases q2
+            refine ⟨oa, ob, fs, o', _, orr, hoa, hob, hfs, rfl, q3, ?_⟩
+            intro htag
+            rw [q4]
+            congr 1
+            unfold convRows needsConv
+            rcases htag with ht | ht <;> simp [ht]
   · simp at h
 
 end Midgard.Dataset
